@@ -64,6 +64,8 @@ def random_seq_script(rng, n):
     for _ in range(rng.choice([0, 0, 1, 2])):      # renegotiation: bound again under another id, the old binding unbound
         steps.insert(rng.randrange(len(steps) + 1), {"a": "rebind", "s": rng.randint(1, ns), "shape": 0,
                                                      "id": rng.choice([0, ext, rng.randint(1, 14)])})
+    if rng.random() < 0.5:                         # all streams removed and bound again: the numbering goes on
+        steps.insert(rng.randrange(len(steps) // 2, len(steps)), {"a": "cycle", "s": 0, "shape": 0, "id": 0})
     return {"level": "seq", "ext": ext, "base": base, "streams": streams, "steps": steps}
 
 
